@@ -1,15 +1,17 @@
 /-
   Driver for C11: line protocol, see harness/props/c11.py.
 
-  region|<axis>;<axis>;…        axis = n,cs,start,stop,step,m,sc   (N = None; start/stop/step are Python ints)
-      -> verdict=<ok|misaligned|shape|badstep> offsets=<ints> blocks=<b.b b.b …> declared=<n>
+  region|<axis>;<axis>;…        axis = n,cs,start,stop,step,m,sc   (N = None; start = X: the region tuple has no entry
+                                 for this axis; start/stop/step are Python ints)
+      -> verdict=<ok|misaligned|shape|badstep|badregion> offsets=<ints> blocks=<b.b b.b …> declared=<n>
          outcome=<ok|IndexError|BroadcastError> final=<ints>
          (final = target contents, row-major, after the sequential run; target prefilled with -1,
           source element number k (row-major) holds k+1)
-  copy|m,sc,n                    -> outcome=<…> final=<ints>        no-region identity copy, 1-D
+  copy|m,sc,n,tc                 -> verdict=shape | verdict=ok outcome=<…> final=<ints>   no-region store into an existing
+                                    length-n array with stored chunk tc, 1-D
   pairs|<nsrc>|<ntgt>|<N | one | many:k>
       -> ok <k> | error lenTargets | error lenRegions
-  store|<id:lazy:dep.dep …>|<src:tgt:region:accepted …>
+  store|<id:lazy:dep.dep …>|<src:tgt:region:accepted:samechunks:existing …>
       -> rejected <k> | broken | done <w|m> …
 -/
 import CubedModel.Model.Proto
@@ -19,11 +21,14 @@ open Cubed Cubed.Proto Cubed.StoreSem
 
 def optInt (s : String) : Option Int := if s.trimAscii.toString == "N" then none else parseInt? s
 
-def parseAxis (s : String) : Option Axis :=
+/-- an axis; the Bool says whether the region tuple has an entry for it (start field `X` = no entry) -/
+def parseAxis (s : String) : Option (Axis × Bool) :=
   match s.splitOn "," with
   | [n, cs, st, sp, step, m, sc] =>
     match parseNat? n, parseNat? cs, parseNat? m, parseNat? sc with
-    | some n, some cs, some m, some sc => some ⟨n, cs, ⟨optInt st, optInt sp, optInt step⟩, m, sc⟩
+    | some n, some cs, some m, some sc =>
+      if st.trimAscii.toString == "X" then some (⟨n, cs, ⟨none, none, none⟩, m, sc⟩, false)
+      else some (⟨n, cs, ⟨optInt st, optInt sp, optInt step⟩, m, sc⟩, true)
     | _, _, _, _ => none
   | _ => none
 
@@ -32,18 +37,22 @@ def showVerdict : Verdict → String
   | .misaligned => "misaligned"
   | .shapeMismatch => "shape"
   | .badStep => "badstep"
+  | .badRegion => "badregion"
 
 def rowMajor (shape idx : List Nat) : Nat :=
   (shape.zip idx).foldl (fun acc p => acc * p.1 + p.2) 0
 
 def handleRegion (body : String) : String :=
-  let axes := (body.splitOn ";").filterMap parseAxis
-  if axes.length != (body.splitOn ";").length then "bad-request" else
-  let v := validate axes
+  let parsed := (body.splitOn ";").filterMap parseAxis
+  if parsed.length != (body.splitOn ";").length then "bad-request" else
+  let axes := parsed.map (·.1)
+  let regionLen := (parsed.filter (·.2)).length
+  let v := acceptReq axes.length regionLen axes
   if v != .ok then s!"verdict={showVerdict v}" else
-  let offs := axes.map blockOffset
-  let blocks := outputBlocks axes
-  let run := runRegion axes
+  let prep := prepare axes
+  let offs := prep.map blockOffset
+  let blocks := outputBlocks prep
+  let run := storeRegion axes
   let srcShape := axes.map (·.m)
   let src : List Nat → Int := fun js => (rowMajor srcShape js : Nat) + 1
   let tgt : List Nat → Int := fun _ => -1
@@ -53,7 +62,7 @@ def handleRegion (body : String) : String :=
     | none => "ok"
     | some .indexError => "IndexError"
     | some .broadcastError => "BroadcastError"
-  s!"verdict=ok offsets={showInts offs} blocks={" ".intercalate (blocks.map (fun b => ".".intercalate (b.map toString)))} declared={declaredTasks axes} outcome={outcome} final={showInts (cells.map fin)}"
+  s!"verdict=ok offsets={showInts offs} blocks={" ".intercalate (blocks.map (fun b => ".".intercalate (b.map toString)))} declared={declaredTasks prep} outcome={outcome} final={showInts (cells.map fin)}"
 
 def showOutcome : Option TaskErr → String
   | none => "ok"
@@ -62,11 +71,12 @@ def showOutcome : Option TaskErr → String
 
 def handleCopy (body : String) : String :=
   match parseNats body with
-  | [m, sc, n] =>
+  | [m, sc, n, tc] =>
+    if validateNoRegion m n != .ok then s!"verdict={showVerdict (validateNoRegion m n)}" else
     let src : Nat → Int := fun j => (j : Int) + 1
-    let run := runCopy m sc n
+    let run := storeCopy m sc tc
     let fin := applyPairs src run.written (fun _ => -1)
-    s!"outcome={showOutcome run.err} final={showInts ((List.range n).map fin)}"
+    s!"verdict=ok outcome={showOutcome run.err} final={showInts ((List.range n).map fin)}"
   | _ => "bad-request"
 
 def handlePairs (parts : List String) : String :=
@@ -100,13 +110,18 @@ def handleStore (parts : List String) : String :=
     let A : Arrays :=
       { lazy := fun a => match tab.find? (fun e => e.1 == a) with | some e => e.2.1 | none => false
         deps := fun a => match tab.find? (fun e => e.1 == a) with | some e => e.2.2 | none => [] }
-    let pairs : List Pair := (prs.splitOn " ").filterMap (fun s =>
+    let parsed : List (Pair × Bool × Bool) := (prs.splitOn " ").filterMap (fun s =>
       match s.splitOn ":" with
-      | [a, t, r, ok] =>
+      | [a, t, r, ok, same, ex] =>
         match parseNat? a, parseNat? t with
-        | some a, some t => some ⟨a, t, r == "1", ok == "1"⟩
+        | some a, some t => some (⟨a, t, r == "1", ok == "1"⟩, same == "1", ex == "1")
         | _, _ => none
       | _ => none)
+    let pairs := parsed.map (·.1)
+    let A : Arrays :=
+      { lazy := A.lazy, deps := A.deps
+        sameChunks := fun l => match parsed.find? (fun e => e.1.tgt == l) with | some e => e.2.1 | none => true
+        existing := fun l => match parsed.find? (fun e => e.1.tgt == l) with | some e => e.2.2 | none => false }
     match storeOutcome A pairs with
     | .rejected k => s!"rejected {k}"
     | .broken => "broken"
